@@ -621,10 +621,107 @@ Definition empty_attrs : attrs :=
 
 (* parseImpl.  Tokens answer through k (inl ..); containers through k (inr (loc, tokens)) on success and through
    `fail` (which is k (inl ..) as well, so that the IndexError guard of _parseNoCache sees it) on failure. *)
-Definition impl (e : expr) (s : str) (loc : nat) (d : bool) (k : impl_res + (nat * raw) -> prg) : prg :=
+Definition kont := (impl_res + (nat * raw))%type.
+Definition fail_of (k : kont -> prg) : exn -> prg :=
+  fun x => k (inl (if is_index (xk x) then IIndexError else IExc x)).
+Definition failo_of (k : kont -> prg) : outcome -> prg :=
+  fun o => match o with Err x => fail_of k x | _ => Ret Div end.
+
+(* And.parseImpl after the first element *)
+Fixpoint and_go (k : kont -> prg) (a : attrs) (s : str) (d : bool) (es : list expr) (loc : nat) (acc : pres) (estop : bool) : prg :=
+  match es with
+  | [] => k (inr (loc, RPR acc))
+  | c :: rest =>
+    match c with
+    | Tok _ _ KErrorStop => and_go k a s d rest loc acc true
+    | _ =>
+      call c s loc d true (fun o =>
+        match o with
+        | Ok loc' r => and_go k a s d rest loc' (pr_iadd acc r) estop
+        | Div => Ret Div
+        | Err x =>
+          if estop then
+            match xk x with
+            | XSyntax => fail_of k x
+            | XParse | XFatal => fail_of k (mkx XSyntax (xloc x) (xmsg x) (xel x))
+            | XIndex => fail_of k (mkx XSyntax (Z.of_nat (length s)) (MNode (nid a) 0) (Some (nid a)))
+            | _ => fail_of k x
+            end
+          else fail_of k x
+        end)
+    end
+  end.
+
+(* MatchFirst.parseImpl *)
+Fixpoint mf_go (k : kont -> prg) (e : expr) (s : str) (loc : nat) (d : bool) (es : list expr) (best : option exn) : prg :=
+  match es with
+  | [] => alt_fail (fail_of k) e s loc best
+  | c :: rest =>
+    call c s loc d true (fun o =>
+      match o with
+      | Ok loc' r => k (inr (loc', RPR r))
+      | Div => Ret Div
+      | Err x =>
+        if is_fatal (xk x) then fail_of k (mkx (xk x) (xloc x) (xmsg x) (Some (nid (attrs_of c))))
+        else if is_pe (xk x) then mf_go k e s loc d rest (better best x)
+        else if is_index (xk x) then
+          let len := Z.of_nat (length s) in
+          mf_go k e s loc d rest (if (best_loc best <? len)%Z
+                   then Some (mkx XParse len (MNode (nid (attrs_of c)) 0) (Some (nid (attrs_of e)))) else best)
+        else fail_of k x
+      end)
+  end.
+
+(* Or.parseImpl, second pass (do_actions = True) *)
+Fixpoint or_go2 (k : kont -> prg) (tail : option exn -> prg) (s : str) (loc : nat)
+         (ms : list (nat * expr)) (longest : option (nat * pres)) (best : option exn) : prg :=
+  match ms with
+  | [] => match longest with Some (l, r) => k (inr (l, RPR r)) | None => tail best end
+  | (loc1, c) :: rest =>
+    let stop := match longest with Some (l, _) => Nat.leb loc1 l | None => false end in
+    if stop then match longest with Some (l, r) => k (inr (l, RPR r)) | None => Ret Div end
+    else call c s loc true true (fun o =>
+      match o with
+      | Ok loc2 r =>
+        if Nat.leb loc1 loc2 then k (inr (loc2, RPR r))
+        else or_go2 k tail s loc rest (match longest with
+                      | Some (l, _) => if Nat.ltb l loc2 then Some (loc2, r) else longest
+                      | None => Some (loc2, r)
+                      end) best
+      | Div => Ret Div
+      | Err x => if is_pe (xk x) then or_go2 k tail s loc rest longest (better best x) else fail_of k x
+      end)
+  end.
+
+(* _MultipleMatch.parseImpl: the `while 1` loop inside `try: ... except (ParseException, IndexError): pass` *)
+Fixpoint rep_go (k : kont -> prg) (fail_or_empty : outcome -> prg) (e body : expr) (ne : option expr) (s : str) (d : bool)
+         (fuel : nat) (loc : nat) (acc : pres) : prg :=
+  match fuel with
+  | 0 => Ret Div
+  | S f =>
+    let stop (o : outcome) : prg :=
+      match o with
+      | Err x => if is_pe (xk x) || is_index (xk x) then k (inr (loc, RPR acc)) else fail_or_empty o
+      | _ => Ret Div
+      end in
+    check_ender ne s loc (fun r =>
+      match r with
+      | Some o => stop o
+      | None =>
+        skip_ignorables (fun x => stop (Err x)) (length s + 2) (ign_of e) s loc (fun preloc =>
+          call body s preloc d true (fun o =>
+            match o with
+            | Ok loc' r' => if Nat.eqb loc' loc then Ret Div else rep_go k fail_or_empty e body ne s d f loc' (pr_iadd acc r')
+            | Div => Ret Div
+            | Err _ => stop o
+            end))
+      end)
+  end.
+
+Definition impl (e : expr) (s : str) (loc : nat) (d : bool) (k : kont -> prg) : prg :=
   let a := attrs_of e in
-  let fail : exn -> prg := fun x => k (inl (if is_index (xk x) then IIndexError else IExc x)) in
-  let failo : outcome -> prg := fun o => match o with Err x => fail x | _ => Ret Div end in
+  let fail := fail_of k in
+  let failo := failo_of k in
   match e with
   | Tok _ _ t => k (inl (tok_impl a t s loc))
   | Nary _ _ NAnd es =>
@@ -633,53 +730,11 @@ Definition impl (e : expr) (s : str) (loc : nat) (d : bool) (k : impl_res + (nat
     | c :: rest =>
       call c s loc d false (fun o =>
         match o with
-        | Ok loc' r =>
-            (fix go (es : list expr) (loc : nat) (acc : pres) (estop : bool) : prg :=
-              match es with
-              | [] => k (inr (loc, RPR acc))
-              | c :: rest =>
-                match c with
-                | Tok _ _ KErrorStop => go rest loc acc true
-                | _ =>
-                  call c s loc d true (fun o =>
-                    match o with
-                    | Ok loc' r => go rest loc' (pr_iadd acc r) estop
-                    | Div => Ret Div
-                    | Err x =>
-                      if estop then
-                        match xk x with
-                        | XSyntax => fail x
-                        | XParse | XFatal => fail (mkx XSyntax (xloc x) (xmsg x) (xel x))
-                        | XIndex => fail (mkx XSyntax (Z.of_nat (length s)) (MNode (nid a) 0) (Some (nid a)))
-                        | _ => fail x
-                        end
-                      else fail x
-                    end)
-                end
-              end) rest loc' r false
+        | Ok loc' r => and_go k a s d rest loc' r false
         | _ => failo o
         end)
     end
-  | Nary _ _ NMatchFirst es =>
-    (* the chosen alternative's (loc, tokens) is returned as is *)
-    (fix go (es : list expr) (best : option exn) : prg :=
-       match es with
-       | [] => alt_fail fail e s loc best
-       | c :: rest =>
-         call c s loc d true (fun o =>
-           match o with
-           | Ok loc' r => k (inr (loc', RPR r))
-           | Div => Ret Div
-           | Err x =>
-             if is_fatal (xk x) then fail (mkx (xk x) (xloc x) (xmsg x) (Some (nid (attrs_of c))))
-             else if is_pe (xk x) then go rest (better best x)
-             else if is_index (xk x) then
-               let len := Z.of_nat (length s) in
-               go rest (if (best_loc best <? len)%Z
-                        then Some (mkx XParse len (MNode (nid (attrs_of c)) 0) (Some (nid a))) else best)
-             else fail x
-           end)
-       end) es None
+  | Nary _ _ NMatchFirst es => mf_go k e s loc d es None
   | Nary _ _ NOr es =>
     let start (loc : nat) : prg :=
       or_pass1 fail e es s loc [] [] None (fun matches fatals best =>
@@ -697,25 +752,7 @@ Definition impl (e : expr) (s : str) (loc : nat) (d : bool) (k : impl_res + (nat
             | (_, c) :: _ => call c s loc false true (fun o => match o with Ok l r => k (inr (l, RPR r)) | _ => failo o end)
             | [] => tail best
             end
-          else
-            (fix go (ms : list (nat * expr)) (longest : option (nat * pres)) (best : option exn) : prg :=
-               match ms with
-               | [] => match longest with Some (l, r) => k (inr (l, RPR r)) | None => tail best end
-               | (loc1, c) :: rest =>
-                 let stop := match longest with Some (l, _) => Nat.leb loc1 l | None => false end in
-                 if stop then match longest with Some (l, r) => k (inr (l, RPR r)) | None => Ret Div end
-                 else call c s loc true true (fun o =>
-                   match o with
-                   | Ok loc2 r =>
-                     if Nat.leb loc1 loc2 then k (inr (loc2, RPR r))
-                     else go rest (match longest with
-                                   | Some (l, _) => if Nat.ltb l loc2 then Some (loc2, r) else longest
-                                   | None => Some (loc2, r)
-                                   end) best
-                   | Div => Ret Div
-                   | Err x => if is_pe (xk x) then go rest longest (better best x) else fail x
-                   end)
-               end) sorted None best
+          else or_go2 k tail s loc sorted None best
         end) in
     if forallb (fun c => callpre (attrs_of c)) es then pre_parse fail e s loc start else start loc
   | Nary _ _ NEach es => fail (mkx XOther 0%Z MEmpty None)      (* Each: not modelled yet (reported as unsupported by the harness) *)
@@ -794,31 +831,7 @@ Definition impl (e : expr) (s : str) (loc : nat) (d : bool) (k : impl_res + (nat
       | None =>
         call body s loc d true (fun o =>
           match o with
-          | Ok loc1 r1 =>
-            (fix go (fuel : nat) (loc : nat) (acc : pres) : prg :=
-               match fuel with
-               | 0 => Ret Div
-               | S f =>
-                 (* inside `try: ... except (ParseException, IndexError): pass` *)
-                 let stop (o : outcome) : prg :=
-                   match o with
-                   | Err x => if is_pe (xk x) || is_index (xk x) then k (inr (loc, RPR acc))
-                              else fail_or_empty o
-                   | _ => Ret Div
-                   end in
-                 check_ender ne s loc (fun r =>
-                   match r with
-                   | Some o => stop o
-                   | None =>
-                     skip_ignorables (fun x => stop (Err x)) (length s + 2) (ign_of e) s loc (fun preloc =>
-                       call body s preloc d true (fun o =>
-                         match o with
-                         | Ok loc' r' => if Nat.eqb loc' loc then Ret Div else go f loc' (pr_iadd acc r')
-                         | Div => Ret Div
-                         | Err _ => stop o
-                         end))
-                   end)
-               end) (length s + 3) loc1 r1
+          | Ok loc1 r1 => rep_go k fail_or_empty e body ne s d (length s + 3) loc1 r1
           | Div => Ret Div
           | Err _ => fail_or_empty o
           end)
@@ -879,34 +892,40 @@ Definition post_parse (e : expr) (r : raw) : raw :=
   | _ => r
   end.
 
+(* the code of _parseNoCache after parseImpl returned: postParse, the ParseResults wrap, the action loop *)
+Definition finish (e : expr) (d : bool) (pre_loc loc : nat) (r : raw) : prg :=
+  let a := attrs_of e in
+  let r1 := post_parse e r in
+  let rt := pr_init r1 (rsname a) (aslist a) (modalr a) in
+  match acts a with
+  | [] => Ret (Ok loc rt)
+  | acs => if d || calltry a then
+             match run_actions a acs pre_loc rt with
+             | inl rt' => Ret (Ok loc rt')
+             | inr x => Ret (Err x)
+             end
+           else Ret (Ok loc rt)
+  end.
+
+(* what _parseNoCache does with the answer of parseImpl (incl. the IndexError guard) *)
+Definition step_k (e : expr) (s : str) (d : bool) (pre_loc : nat) : kont -> prg :=
+  fun res =>
+    let a := attrs_of e in
+    match res with
+    | inl (IOk loc r) => finish e d pre_loc loc r
+    | inl (IExc x) => Ret (Err x)
+    | inl IIndexError =>
+      if mayidx a || Nat.leb (length s) pre_loc
+      then Ret (Err (mkx XParse (Z.of_nat (length s)) (MNode (nid a) 0) (Some (nid a))))
+      else Ret (Err (mkx XIndex (Z.of_nat pre_loc) MEmpty None))
+    | inr (loc, r) => finish e d pre_loc loc r
+    end.
+
 Definition step (ar : args) : prg :=
   let e := a_e ar in let s := a_s ar in let d := a_do ar in
   let a := attrs_of e in
-  let len := length s in
   let with_pre (k : nat -> prg) : prg :=
     if a_pre ar && callpre a then pre_parse escape e s (a_loc ar) k else k (a_loc ar) in
-  with_pre (fun pre_loc =>
-    let finish (loc : nat) (r : raw) : prg :=
-      let r1 := post_parse e r in
-      let rt := pr_init r1 (rsname a) (aslist a) (modalr a) in
-      match acts a with
-      | [] => Ret (Ok loc rt)
-      | acs => if d || calltry a then
-                 match run_actions a acs pre_loc rt with
-                 | inl rt' => Ret (Ok loc rt')
-                 | inr x => Ret (Err x)
-                 end
-               else Ret (Ok loc rt)
-      end in
-    let guarded := mayidx a || Nat.leb len pre_loc in
-    impl e s pre_loc d (fun res =>
-      match res with
-      | inl (IOk loc r) => finish loc r
-      | inl (IExc x) => Ret (Err x)
-      | inl IIndexError =>
-        if guarded then Ret (Err (mkx XParse (Z.of_nat len) (MNode (nid a) 0) (Some (nid a))))
-        else Ret (Err (mkx XIndex (Z.of_nat pre_loc) MEmpty None))
-      | inr (loc, r) => finish loc r
-      end)).
+  with_pre (fun pre_loc => impl e s pre_loc d (step_k e s d pre_loc)).
 
 End Step.
